@@ -1,11 +1,11 @@
 package main
 
 import (
-	"unicode/utf8"
 	"fmt"
 	"math/rand"
 	"strings"
 	"unicode"
+	"unicode/utf8"
 
 	regexp2 "github.com/dlclark/regexp2/v2"
 	"github.com/dlclark/regexp2/v2/syntax"
@@ -27,6 +27,72 @@ type facts struct {
 	code *syntax.Code
 	rtl  bool
 	opts int
+	// the literal the tree guarantees at the start of every match (RegexNode.FindStartingLiteral, a
+	// fact for code generators), and what is wrong with facts that do not depend on a text
+	startLit *syntax.StartingLiteral
+	static   []string
+}
+
+// classAnalysisHolds compares what CharSet.Analyze claims about a set with the set's own membership test.
+func classAnalysisHolds(set *syntax.CharSet) string {
+	a := set.Analyze()
+	if !a.OnlyRanges {
+		return ""
+	}
+	probe := []rune{0, 1, 'A', 'a', '0', 0x7E, 0x7F, 0x80, 0x81, 0xFF, 0x100, 0x7FF, 0x800, 0xFFFD, 0xFFFF, 0x10000, 0x10FFFF,
+		a.LowerBoundInclusiveIfOnlyRanges, a.LowerBoundInclusiveIfOnlyRanges - 1, a.UpperBoundExclusiveIfOnlyRanges, a.UpperBoundExclusiveIfOnlyRanges - 1}
+	for r := rune(0); r < 0x80; r++ {
+		probe = append(probe, r)
+	}
+	for _, r := range probe {
+		if r < 0 || r > 0x10FFFF {
+			continue
+		}
+		in := set.CharIn(r)
+		ascii := r < 0x80
+		switch {
+		case a.ContainsOnlyAscii && in && !ascii:
+			return fmt.Sprintf("Analyze(%v).ContainsOnlyAscii but U+%04X is in the set", set.String(), r)
+		case a.ContainsNoAscii && in && ascii:
+			return fmt.Sprintf("Analyze(%v).ContainsNoAscii but U+%04X is in the set", set.String(), r)
+		case a.AllAsciiContained && !in && ascii:
+			return fmt.Sprintf("Analyze(%v).AllAsciiContained but U+%04X is not in the set", set.String(), r)
+		case a.AllNonAsciiContained && !in && !ascii:
+			return fmt.Sprintf("Analyze(%v).AllNonAsciiContained but U+%04X is not in the set", set.String(), r)
+		}
+		if !set.IsNegated() && in && (r < a.LowerBoundInclusiveIfOnlyRanges || r >= a.UpperBoundExclusiveIfOnlyRanges) {
+			return fmt.Sprintf("Analyze(%v) bounds [U+%04X, U+%04X) but U+%04X is in the set", set.String(), a.LowerBoundInclusiveIfOnlyRanges, a.UpperBoundExclusiveIfOnlyRanges, r)
+		}
+	}
+	return ""
+}
+
+func staticFacts(tree *syntax.RegexTree, fo *syntax.FindOptimizations) []string {
+	var bad []string
+	var walk func(n *syntax.RegexNode)
+	walk = func(n *syntax.RegexNode) {
+		if n.Set != nil && len(bad) == 0 {
+			if d := classAnalysisHolds(n.Set); d != "" {
+				bad = append(bad, d)
+			}
+		}
+		for _, c := range n.Children {
+			walk(c)
+		}
+	}
+	walk(tree.Root)
+	if fo != nil {
+		if l := fo.LiteralAfterLoop; l != nil && l.LoopNode != nil && l.LoopNode.Set != nil {
+			first := l.Char
+			if l.String != "" {
+				first, _ = utf8.DecodeRuneInString(l.String)
+			}
+			if (l.String != "" || len(l.Chars) == 0) && !l.StringIgnoreCase && l.LoopNode.Set.CharIn(first) {
+				bad = append(bad, fmt.Sprintf("LiteralAfterLoop (string %q char %q) starts with a rune that the loop's set %v contains: the literal must not be able to start inside the loop", l.String, l.Char, l.LoopNode.Set.String()))
+			}
+		}
+	}
+	return bad
 }
 
 func factsOf(src string, opts, copts int) (*facts, error) {
@@ -39,7 +105,12 @@ func factsOf(src string, opts, copts int) (*facts, error) {
 	if err != nil {
 		return nil, err
 	}
-	return &facts{fo: fo, code: code, rtl: opts&int(regexp2.RightToLeft) != 0, opts: opts}, nil
+	f := &facts{fo: fo, code: code, rtl: opts&int(regexp2.RightToLeft) != 0, opts: opts}
+	if !f.rtl {
+		f.startLit = tree.Root.FindStartingLiteral()
+	}
+	f.static = staticFacts(tree, fo)
+	return f, nil
 }
 
 func foldEq(a, b rune) bool {
@@ -152,6 +223,31 @@ func (f *facts) check(text []rune, p, idx, length, origin int, seen func(string)
 	strictEnd := f.opts&int(regexp2.RE2|regexp2.ECMAScript) != 0
 	ecma := f.opts&int(regexp2.ECMAScript) != 0
 	end := idx + length
+	bad = append(bad, f.static...)
+	seen("static: class analyses, literal-after-loop contract")
+	if sl := f.startLit; sl != nil && !f.rtl {
+		seen("StartingLiteral")
+		switch {
+		case len(sl.String) > 0:
+			if !hasPrefixAt(text, p, sl.String, false) {
+				fail("FindStartingLiteral = string %q but the match at %d does not start with it", string(sl.String), p)
+			}
+		case p >= n:
+			fail("FindStartingLiteral promises a first rune but a match starts at the end of the text (%d)", p)
+		case len(sl.SetChars) > 0:
+			in := false
+			for _, c := range sl.SetChars {
+				in = in || c == text[p]
+			}
+			if in == sl.Negated {
+				fail("FindStartingLiteral = set %q negated=%v but the match at %d starts with %q", string(sl.SetChars), sl.Negated, p, text[p])
+			}
+		default:
+			if in := text[p] >= sl.Range.First && text[p] <= sl.Range.Last; in == sl.Negated {
+				fail("FindStartingLiteral = range U+%04X-U+%04X negated=%v but the match at %d starts with %q", sl.Range.First, sl.Range.Last, sl.Negated, p, text[p])
+			}
+		}
+	}
 	if fo != nil {
 		seen("MinRequiredLength")
 		if f.rtl {
